@@ -40,11 +40,11 @@ pub enum Input {
 #[derive(Clone, Debug, Serialize, Deserialize)]
 pub struct Case { pub entry: String, pub input: Input, pub aux: String }
 
-pub const ENTRIES: [&str; 35] = [
+pub const ENTRIES: [&str; 36] = [
     "json-object", "json-property", "json-array-split", "json-array-objects",
     "list-i8", "list-i16", "list-i32", "list-i64", "list-i128", "list-u8", "list-u16", "list-u32", "list-u64", "list-u128", "list-f32", "list-f64", "list-string", "list-bool", "list-null",
     "base64-decode", "multipart-parse", "multipart-extract-boundary", "request-parse", "response-parse", "header-parse", "content-disposition-parse",
-    "range-spec", "content-range-value", "byteranges-body", "config-file", "urlpath-pattern", "urlpath-is-matching", "urlpath-extract", "urlpath-build", "request-line",
+    "range-spec", "content-range-value", "byteranges-body", "byteranges-body-with-boundary", "config-file", "urlpath-pattern", "urlpath-is-matching", "urlpath-extract", "urlpath-build", "request-line",
 ];
 
 fn fixture(rel: &str) -> Vec<u8> {
@@ -70,12 +70,19 @@ pub fn seeds(entry: &str) -> Vec<Vec<u8>> {
         "request-parse" | "request-line" => { let mut v = vec![fixture("src/request/example/request.txt"), fixture("src/request/query.request.txt"), fixture("src/request/no-path.query.request.txt"), b"GET / HTTP/1.1\r\nHost: localhost\r\nContent-Length: 5\r\n\r\nhello".to_vec(), b"POST /x?y=1 HTTP/1.0\r\nA: b: c\r\n\r\n".to_vec()]; v.retain(|x| !x.is_empty()); v }
         "response-parse" | "response-parse-legacy" => { let mut v = vec![fixture("src/response/example/response.txt"), fixture("src/response/example/response.multipart.txt"),
             b"HTTP/1.1 200 OK\r\nContent-Type: text/plain\r\nContent-Range: bytes 0-5/5\r\nContent-Length: 5\r\n\r\nhello".to_vec(),
+            // multipart responses whose boundary parameter is empty, hyphens only, quoted, or missing - each followed by well-formed parts
+            b"HTTP/1.1 206 Partial Content\r\nContent-Type: multipart/byteranges; boundary=\r\n\r\n--\r\nContent-Type: text/plain\r\nContent-Range: bytes 0-1/10\r\n\r\nab\r\n--\r\nContent-Type: text/plain\r\nContent-Range: bytes 4-5/10\r\n\r\nef\r\n----".to_vec(),
+            b"HTTP/1.1 206 Partial Content\r\nContent-Type: multipart/byteranges; boundary=-\r\n\r\n---\r\nContent-Type: text/plain\r\nContent-Range: bytes 0-1/10\r\n\r\nab\r\n---\r\nContent-Type: text/plain\r\nContent-Range: bytes 4-5/10\r\n\r\nef\r\n-----".to_vec(),
+            b"HTTP/1.1 206 Partial Content\r\nContent-Type: multipart/byteranges; boundary=\"q\"\r\n\r\n--q\r\nContent-Type: text/plain\r\nContent-Range: bytes 0-1/10\r\n\r\nab\r\n--q--".to_vec(),
+            b"HTTP/1.1 206 Partial Content\r\nContent-Type: multipart/byteranges\r\n\r\n--q\r\nContent-Type: text/plain\r\nContent-Range: bytes 0-1/10\r\n\r\nab\r\n--q--".to_vec(),
             b"HTTP/1.1 206 Partial Content\r\nContent-Type: multipart/byteranges; boundary=String_separator\r\n\r\n--String_separator\r\nContent-Type:  text/plain\r\nContent-Range:  bytes 0-1/10\r\n\r\nab\r\n--String_separator\r\nContent-Type:  text/plain\r\nContent-Range:  bytes 4-5/10\r\n\r\nef\r\n--String_separator".to_vec()]; v.retain(|x| !x.is_empty()); v }
         "header-parse" => s(&["Content-Type: text/html", "Host: localhost:80", "X: ", "Name:value:with:colons", "A: b\r\n"]),
         "content-disposition-parse" => s(&["form-data; name=\"a\"; filename=\"b.txt\"", "attachment; filename=\"x\"", "inline", "form-data; name=\"field\"", "form-data"]),
         "range-spec" => s(&["0-5", "5-", "-5", "0-0", "3 - 4", "10-20"]),
         "content-range-value" => s(&["bytes 0-5/10", "bytes 0-0/0", "bytes 9223372036854775806-9223372036854775807/9223372036854775807", "BYTES 1-2/3"]),
-        "byteranges-body" | "byteranges-body-legacy" => vec![b"--String_separator\r\nContent-Type:  text/plain\r\nContent-Range:  bytes 0-1/10\r\n\r\nab\r\n--String_separator\r\nContent-Type:  text/plain\r\nContent-Range:  bytes 4-5/10\r\n\r\nef\r\n--String_separator".to_vec()],
+        "byteranges-body" | "byteranges-body-legacy" | "byteranges-body-with-boundary" => vec![
+            b"--\r\nContent-Type: text/plain\r\nContent-Range: bytes 0-1/10\r\n\r\nab\r\n--\r\nContent-Type: text/plain\r\nContent-Range: bytes 4-5/10\r\n\r\nef\r\n----".to_vec(),
+            b"\r\nContent-Type: text/plain\r\nContent-Range: bytes 0-1/10\r\n\r\nab\r\n".to_vec(),b"--String_separator\r\nContent-Type:  text/plain\r\nContent-Range:  bytes 0-1/10\r\n\r\nab\r\n--String_separator\r\nContent-Type:  text/plain\r\nContent-Range:  bytes 4-5/10\r\n\r\nef\r\n--String_separator".to_vec()],
         "config-file" => { let mut v = vec![fixture("rws.config.toml"), fixture("src/test/app/rws.config.toml"), b"ip = '127.0.0.1'\nport = 1\n[cors]\nallow_all = true\n".to_vec()]; v.retain(|x| !x.is_empty()); v }
         e if e.starts_with("urlpath") => s(&["/user/[[id]]/post/[[post]]", "/static/[[file]]", "/a/b/c", "[[x]]", "/[[a]][[b]]", "/p/[[q]]/"]),
         _ => s(&[""]),
@@ -85,6 +92,8 @@ pub fn seeds(entry: &str) -> Vec<Vec<u8>> {
 pub fn aux_for(entry: &str) -> Vec<&'static str> {
     match entry {
         "multipart-parse" => vec!["XB", "--XB", "", "-", "B"],
+        // the boundary argument of the byteranges reader (what Response::parse extracts from the Content-Type): usual, empty, hyphens only, one character, with blanks
+        "byteranges-body-with-boundary" => vec!["String_separator", "", "-", "--", "S", "String separator", "String_separator\r"],
         "range-spec" => vec!["10", "0", "18446744073709551615", "5"],
         e if e.starts_with("urlpath") => vec!["/user/1/post/2", "/static/x.png", "/a/b/c", "", "/user//post/", "/y/1", "/p/q/"],
         _ => vec![""],
@@ -130,6 +139,7 @@ pub fn call(entry: &str, input: &[u8], aux: &str) {
         "content-disposition-parse" => { let _ = crate::header::content_disposition::ContentDisposition::parse(&text()); }
         "range-spec" => { let _ = crate::range::Range::parse_range_in_content_range(aux.parse::<u64>().unwrap_or(10), &text()); }
         "content-range-value" => { let _ = crate::range::Range::_parse_content_range_header_value(text()); }
+        "byteranges-body-with-boundary" => { let mut cur = std::io::Cursor::new(input); let _ = crate::range::Range::parse_multipart_body_with_boundary(&mut cur, vec![], aux.to_string(), input.len() as i32, 0, false); }
         "byteranges-body" => { let mut cur = std::io::Cursor::new(input); let _ = crate::range::Range::parse_multipart_body(&mut cur, vec![]); }
         "byteranges-body-legacy" => { let mut cur = std::io::Cursor::new(input); let _ = crate::range::Range::_parse_multipart_body(&mut cur, vec![]); }
         "config-file" => { reset_config_env(); let cur = std::io::Cursor::new(input); let _ = crate::entry_point::config_file::read_config_file(cur, String::new()); reset_config_env(); }
